@@ -32,6 +32,9 @@ def _imports():
     import halmos.solve as solve_mod
 
 
+import os as _os
+STUB = _os.path.join(report.VERIF, "lib", "stubsolver.sh")
+
 REC = {"hits": [], "lookups": 0, "on": False, "idmap": {}, "recycled": 0, "gc": False, "gc_cycles": 0, "lock": threading.Lock()}
 _installed = False
 
@@ -263,6 +266,111 @@ def case(seed, idx, res):
         res["samples"].append(dict(index=idx, tests=sigs, cache_hits=len(hits), lookups=lookups, verdicts=[r.exitcode for r in on.results]))
 
 
+def switch_fn(name, n, base, contradictory=False):
+    """check(x): arm i is taken iff (x & 0xFFFF) == base + i; the arm panics (contradictory: only if additionally (x & 0xFF) differs from the
+    low byte that the arm condition fixes, i.e. never — but only a solver sees that: `var == const` would be substituted away by halmos)"""
+    U = ("uint", 256)
+    body = []
+    for i in range(n):
+        body += A.arg(0) + [0xFFFF, "AND", base + i, "EQ", f"@arm{i}", "JUMPI"]
+    body += ["STOP"]
+    for i in range(n):
+        body += [f":arm{i}"]
+        if contradictory:
+            body += A.arg(0) + [0xFF, "AND", ((base + i) & 0xFF) ^ 0x55, "EQ", f"@hit{i}", "JUMPI", "STOP", f":hit{i}"]
+        body += A.panic(1)
+    return A.Fn(name, [("x", U)], body)
+
+
+def case_empty_core(seed, idx, res):
+    """a solver that answers `unsat` with an empty unsat core "()" (stub): an empty core says nothing and must not make the cache answer the
+    following queries; every potential failure must still reach the solver and the test must FAIL"""
+    import os, shutil, tempfile
+
+    rng = random.Random(f"c16-empty-{seed}-{idx}")
+    n = rng.randrange(3, 7)
+    fn = switch_fn("check_sw", n, 1)
+    setup = A.Fn("setUp", [], ["STOP"])
+    spec = A.ContractSpec("E", [setup, fn], filename="E.sol")
+    work = os.path.join(report.VERIF, ".work")
+    os.makedirs(work, exist_ok=True)
+    sdir = tempfile.mkdtemp(prefix="c16-stub-", dir=work)
+    try:
+        open(os.path.join(sdir, "default.kind"), "w").write("firstnocore")
+        REC["hits"].clear()
+        REC["on"] = True
+        try:
+            out = A.run(A.make_ctx(spec, funsigs=[fn.sig], overrides=dict(cache_solver=True, solver_command=f"{STUB} {sdir}", solver_threads=1, solver_timeout_assertion=20.0)))
+        finally:
+            REC["on"] = False
+        hits = list(REC["hits"])
+        calls = len(open(os.path.join(sdir, "log")).read().splitlines()) if os.path.exists(os.path.join(sdir, "log")) else 0
+    finally:
+        shutil.rmtree(sdir, ignore_errors=True)
+    res["counters"]["evaluations"] += 1
+    res["counters"]["empty_core_histories"] += 1
+    if out.exception or not out.results:
+        res["counters"]["run_failed"] += 1
+        return
+    r = out.results[0]
+    wit = dict(index=idx, mode="empty-core", arms=n, solver_calls=calls, exitcode=r.exitcode, cache_hits=len(hits))
+    if calls != n or r.exitcode != 1:
+        res["violations"].append(dict(what="after an `unsat` reply with an empty unsat core the cache answered later queries (they never reached the solver / the verdict changed)",
+                                      key="empty-core-poisons-cache", **wit))
+    else:
+        res["distinct"].append(f"empty:{idx}")
+
+
+def case_cross_context(seed, idx, res):
+    """cores cached while solving one test must not answer queries of another function context: contract A caches many unsat cores, its terms
+    are garbage-collected, then contract B (fresh terms, possibly recycled z3 ids) has only satisfiable failing paths"""
+    import symrun
+
+    rng = random.Random(f"c16-cross-{seed}-{idx}")
+    na, nb = rng.choice([24, 40]), rng.choice([80, 120])
+    fa = switch_fn("check_a", na, 1, contradictory=True)
+    fb = switch_fn("check_b", nb, 5_000)
+    setup = A.Fn("setUp", [], ["STOP"])
+    specA = A.ContractSpec("XA", [setup, fa], filename="XA.sol")
+    specB = A.ContractSpec("XB", [A.Fn("setUp", [], ["STOP"]), fb], filename="XB.sol")
+    ov = dict(cache_solver=True, solver="yices", solver_threads=rng.choice([1, 4]), width=0)
+    # A: the branching solver answers unknown, so the contradictory arms survive to the assertion solver and leave unsat cores
+    symrun.MON.unknown_p = 1.0
+    symrun.MON.unknown_rng = random.Random(idx)
+    symrun.MON.step_budget = 0
+    try:
+        outA = A.run(A.make_ctx(specA, funsigs=[fa.sig], overrides=ov))
+    finally:
+        symrun.MON.unknown_p = 0.0
+    del outA
+    gc.collect()
+    REC["hits"].clear()
+    REC["on"] = True
+    try:
+        outB = A.run(A.make_ctx(specB, funsigs=[fb.sig], overrides=ov))
+    finally:
+        REC["on"] = False
+    hits = list(REC["hits"])
+    res["counters"]["evaluations"] += 1
+    res["counters"]["cross_context_histories"] += 1
+    if outB.exception or not outB.results:
+        res["counters"]["run_failed"] += 1
+        return
+    r = outB.results[0]
+    n = len(r.models or [])
+    wit = dict(index=idx, mode="cross-context", arms_a=na, arms_b=nb, exitcode=r.exitcode, models=n, cache_hits=len(hits))
+    for h in hits:
+        res["counters"]["cache_hits"] += 1
+        if resolve_hit(h, res) == "sat":
+            res["violations"].append(dict(what="a satisfiable query was answered unsat from the unsat-core cache (cores of another function context)", key="unsound-hit-cross-context",
+                                          cores=h["cores"][:3], assertions=h["assertions"][:20], **wit))
+            break
+    if n != nb or r.exitcode != 1:
+        res["violations"].append(dict(what="counterexamples lost after another function context had filled the unsat-core cache", key="cross-context-count", **wit))
+    else:
+        res["distinct"].append(f"cross:{idx}")
+
+
 def worker(task):
     _imports()
     install()
@@ -270,6 +378,16 @@ def worker(task):
     res = new_result()
     for idx in range(lo, hi):
         case(seed, idx, res)
+    return res
+
+
+def worker2(task):
+    _imports()
+    install()
+    kind, lo, hi, seed = task
+    res = new_result()
+    for idx in range(lo, hi):
+        (case_empty_core if kind == "empty" else case_cross_context)(seed, idx, res)
     return res
 
 
@@ -283,12 +401,16 @@ def main():
         w = json.load(open(run.replay))["witness"]
         res = new_result()
         install()
-        case(run.seed, w["index"], res)
+        {"empty-core": case_empty_core, "cross-context": case_cross_context}.get(w.get("mode"), case)(run.seed, w["index"], res)
         run.merge(res)
         run.finish()
     n = run.n(70, 2000)
     tasks = [(lo, min(n, lo + 2), run.seed) for lo in range(0, n, 2)]
     run_pool(run, worker, tasks, soft_timeout=900)
+    tasks2 = [("empty", i, i + 2, run.seed) for i in range(0, run.n(8, 100), 2)] + [("cross", i, i + 1, run.seed) for i in range(run.n(6, 80))]
+    run_pool(run, worker2, tasks2, soft_timeout=900)
+    run.require("empty_core_histories", 6)
+    run.require("cross_context_histories", 5)
     run.require("cache_hits", 100)
     run.require("hits_confirmed_unsat", 100)
     run.require("differential_pairs", 100)
